@@ -1,3 +1,5 @@
+pub mod acheck;
+pub mod asyncsim;
 pub mod backend;
 pub mod check;
 pub mod exec;
